@@ -34,15 +34,11 @@ def cmp_default(rq, impl, model):
 # ("  Assembling target f.asm", "     Running emitted binary", "   Completed target f.asm", …).
 # Their wording is no property's business: they are removed from BOTH sides (implementation and
 # model, which prints them too) before process-mode outputs are compared.
-_STATUS_LINE = re.compile(rb"^( *)([A-Za-z][A-Za-z-]*) [^\n]*$")
-
-
 def _is_status_line(line):
-    m = _STATUS_LINE.match(line)
-    if not m:
-        return False
-    pad, word = len(m.group(1)), len(m.group(2))
-    return pad + word == 12 or (pad == 0 and word > 12)
+    # `{left:>12} {right}`: whatever the words, a status line starts with padding unless its left part
+    # is 12 characters or longer; program output is compared with such lines removed on BOTH sides
+    # (a program line that starts with a blank is lost to the comparison on both sides alike)
+    return line.startswith(b" ") and line.strip() != b""
 
 
 def strip_status_hex(h):
@@ -130,6 +126,9 @@ def c03_nontrivial(rq, impl):
 
 
 def c03_compare(rq, impl, model):
+    if rq.startswith("T03") or rq.startswith("K03"):
+        # real `lace run` on a pseudo-terminal: standard output carries main.rs's status lines
+        impl, model = canon_proc(impl), canon_proc(model)
     out = cmp_default(rq, impl, model)
     # direct predicate on the implementation: number of out-of-bounds fetches must be 0
     try:
@@ -1061,6 +1060,83 @@ PROPS["C15"] = {
     ],
 }
 
+# ---------------------------------------------------------------- C17: the breakpoint table
+_BOX_V = "│┃|║"
+
+
+def _table_rows(hex_table):
+    """Rows of a breakpoint table, whatever its box characters, widths and heading: a list of
+    (address, label cell, statement cell); a physical line without column separators continues the
+    statement cell of the row above (statement texts may contain line breaks)."""
+    try:
+        text = bytes.fromhex(hex_table).decode("utf-8", "replace")
+    except ValueError:
+        return None
+    rows = []
+    for ln in text.split("\n"):
+        parts = re.split("[" + _BOX_V + "]", ln)
+        m = re.search(r"0x([0-9a-fA-F]{4})", parts[1]) if len(parts) >= 4 else None
+        if m:
+            rows.append([m.group(1).lower(), parts[2].strip(), parts[3].rstrip()])
+        elif rows and len(parts) <= 2 and not re.search("[─━═┼╋┬┴├┤╭╮╰╯┌┐└┘]", ln):
+            rows[-1][2] += "\n" + (parts[0] if len(parts) == 1 else parts[0] + parts[1]).rstrip()
+    return rows
+
+
+def _cell_agrees(shown, expected_shown):
+    """The implementation's cell against the model's cell (both possibly cut with an ellipsis at
+    their own width): the texts agree as far as both show them."""
+    a, b = shown.rstrip(), expected_shown.rstrip()
+    ca, cb = a.endswith("…"), b.endswith("…")
+    a2, b2 = a.rstrip("…").strip(), b.rstrip("…").strip()
+    if not ca and not cb:
+        return a2 == b2
+    n = min(len(a2), len(b2))
+    if ca and cb:
+        return a2[:n] == b2[:n]
+    # one side shows the whole text: the cut side must be a prefix of it
+    return (b2.startswith(a2) if ca else a2.startswith(b2))
+
+
+def c17_compare(rq, impl, model):
+    """B17: when the tables differ as text (box characters, widths, a heading row are the table's
+    own business), they are compared cell by cell instead."""
+    if not rq.startswith("B17") or " | " not in impl:
+        return cmp_default(rq, impl, model)
+    m, s = split_ms(model)
+
+    def split_tabs(x):
+        head, _, tabs = x.rpartition(" | ")
+        return head, tabs.split(",")
+
+    def same(x, y):
+        hx, tx = split_tabs(x)
+        hy, ty = split_tabs(y)
+        if hx != hy or len(tx) != len(ty):
+            return False
+        for a, b in zip(tx, ty):
+            if a == b:
+                continue
+            ra = _table_rows(a) if a not in ("-", "panic") else ([] if a == "-" else None)
+            rb = _table_rows(b) if b not in ("-", "panic") else ([] if b == "-" else None)
+            if ra is None or rb is None or len(ra) != len(rb):
+                return False
+            for x1, y1 in zip(ra, rb):
+                if x1[0] != y1[0] or not _cell_agrees(x1[1], y1[1]) or not _cell_agrees(x1[2].replace("\n", " ").strip(), y1[2].replace("\n", " ").strip()):
+                    return False
+        return True
+
+    out = []
+    if s is not None and not same(m, s):
+        out.append({"kind": "impl-vs-model", "request": rq, "impl": impl, "model": m, "spec": s,
+                    "note": "driver: model and spec answers differ"})
+    if s is not None and not same(impl, s):
+        out.append({"kind": "impl-vs-spec", "request": rq, "impl": impl, "model": m, "spec": s})
+    elif not same(impl, m):
+        out.append({"kind": "impl-vs-model", "request": rq, "impl": impl, "model": m, "spec": s})
+    return out
+
+
 PROPS["C17"] = {
     "theorems": [
         "Lace.C17.span_starts_at_statement_token",
@@ -1112,7 +1188,7 @@ PROPS["C17"] = {
         "Lace.C17.span_text_eq_statement_wf",
         "Lace.C17.span_text_eq_statement_text_holds",
     ],
-    "compare": cmp_default,
+    "compare": c17_compare,
     "classify": src_classify,
     "nontrivial": src_nontrivial,
     "group": lambda d: "view",
